@@ -155,6 +155,7 @@ class TLCResult:
         self.prints = []          # PrintT outputs
         self.last_state = ""      # text of the last state of the error trace
         self.verdict = None       # value of `verdict` in that state
+        self.fails = []           # [(label, line)] when the trace spec collects all failures
         self.output = ""
         self.wall = 0.0
         self.coverage = {}
@@ -232,6 +233,10 @@ def tlc_run(workdir, module, cfg, workers=None, timeout=600, simulate=None,
         r.last_state = states[-1].strip()
         mv = re.search(r'/\\ verdict = "([^"]*)"', r.last_state)
         r.verdict = mv.group(1) if mv else None
+        # trace specifications that collect every failing predicate of a
+        # trace (verdict "MULTI") keep them in `fails`: label -> line
+        mf = re.search(r'/\\ fails = (.*?)(?=\n/\\ |\Z)', r.last_state, re.S)
+        r.fails = [(lab, int(n)) for lab, n in re.findall(r'"([^"]+)" :> (\d+)', mf.group(1))] if mf else []
     r.prints = re.findall(r"^<<.*>>$", out, re.M)
     if r.violated is None:
         if "Model checking completed. No error has been found." in out or \
@@ -357,33 +362,42 @@ def validate_traces(ctx, trace_path, module, cfg, deps, label, timeout=900,
         traces = split_traces(lines)
         idx = next(k for k, (s, e) in enumerate(traces) if s <= bad <= e)
         s, e = traces[idx]
-        reason = r.verdict
-        if reason in (None, "ok"):
-            reason = "invariant:" + r.violated
-        tl = lines[s:bad + 1]
-        try:
-            failing = json.loads(lines[bad])
-        except Exception:
-            failing = {}
-        kind = "violation"
-        if classify:
-            kind = classify(reason, r.violated, failing, tl)
-        info = {"property": ctx.prop, "reason": reason, "invariant": r.violated,
-                "failing_line": failing, "label": label, "seed": ctx.seed,
-                "spec": module, "cfg": cfg, "state": r.last_state[-3000:]}
-        if kind == "violation":
-            p = save_replay(ctx, "%s_%d" % (label, failures), tl, info)
-            ctx.violations.append({"reason": reason, "replay": p, "line": failing})
-            log("  failing trace: %s (line %d of trace, event %s)" % (reason, bad - s + 1, json.dumps(failing)[:300]))
-        elif kind.startswith("known:"):
-            ctx.known_hits.append(kind[6:])
-        elif kind == "other":
-            log("  NOTE other-property verdict %s (not decided by the %s check) at %s" % (reason, ctx.prop, json.dumps(failing)[:200]))
-            ctx.cov.setdefault("other_property_verdicts", 0)
-            ctx.cov["other_property_verdicts"] += 1
+        # one entry per failed predicate: (reason, index of the line it failed at)
+        if r.verdict == "MULTI" and r.fails:
+            entries = sorted(((lab, max(s, min(e, n - 1))) for lab, n in r.fails), key=lambda x: x[1])
         else:
-            ctx.cov["nonconformances"] += 1
-            log("  NONCONFORMANCE property=%s %s at %s" % (ctx.prop, reason, json.dumps(failing)[:200]))
+            reason = r.verdict
+            if reason in (None, "ok"):
+                reason = "invariant:" + r.violated
+            entries = [(reason, bad)]
+        saved = None
+        for reason, at in entries:
+            tl = lines[s:at + 1]
+            try:
+                failing = json.loads(lines[at])
+            except Exception:
+                failing = {}
+            kind = "violation"
+            if classify:
+                kind = classify(reason, r.violated, failing, tl)
+            info = {"property": ctx.prop, "reason": reason, "invariant": r.violated,
+                    "failing_line": failing, "label": label, "seed": ctx.seed,
+                    "spec": module, "cfg": cfg, "all_failed_predicates": [x[0] for x in entries],
+                    "state": r.last_state[-3000:]}
+            if kind == "violation":
+                if saved is None:
+                    saved = save_replay(ctx, "%s_%d" % (label, failures), lines[s:e + 1] if len(entries) > 1 else tl, info)
+                ctx.violations.append({"reason": reason, "replay": saved, "line": failing})
+                log("  failing trace: %s (line %d of trace, event %s)" % (reason, at - s + 1, json.dumps(failing)[:300]))
+            elif kind.startswith("known:"):
+                ctx.known_hits.append(kind[6:])
+            elif kind == "other":
+                log("  NOTE other-property verdict %s (not decided by the %s check) at %s" % (reason, ctx.prop, json.dumps(failing)[:200]))
+                ctx.cov.setdefault("other_property_verdicts", 0)
+                ctx.cov["other_property_verdicts"] += 1
+            else:
+                ctx.cov["nonconformances"] += 1
+                log("  NONCONFORMANCE property=%s %s at %s" % (ctx.prop, reason, json.dumps(failing)[:200]))
         failures += 1
         # remove the failing trace and validate the rest
         lines = lines[:s] + lines[e + 1:]
